@@ -1323,7 +1323,7 @@ fn main() {
     let wall_cap = std::env::var("VERIF_WALL_CAP_S")
         .ok()
         .and_then(|v| v.parse::<f64>().ok())
-        .unwrap_or(ctx.pick(35.0, 1500.0));
+        .unwrap_or(ctx.pick(25.0, 1200.0));
     let capped = AtomicBool::new(false);
     let skipped = AtomicU64::new(0);
     let start = Instant::now();
